@@ -21,7 +21,7 @@ func (f *Fam) genInit(r *rand.Rand) string {
 	window := pick(r, 1, 2, 3, 5, 10)
 	minSigned := pick(r, 0, 50000000000000000, 500000000000000000, 500000000000000000, 950000000000000000, 1000000000000000000)
 	jail := pick(r, 600, 60, 3600) * sec
-	if f.Profile == "downtime" {
+	if f.downtime() {
 		// long chains over windows of more than one byte's worth of slots: the bookkeeping of a large window
 		// (slot keys, wrap-around, clearing on jail) only shows after a few hundred blocks
 		window = pick(r, 256, 257, 300, 300, 511, 100)
@@ -47,7 +47,7 @@ func (f *Fam) genInit(r *rand.Rand) string {
 		fmt.Fprintf(&sb, " acc %s %d", hx(Keys[i].Addr), pick(r, 0, 1000000, 100000000, 1000000000))
 	}
 	nv := r.Intn(7)
-	if f.Profile == "downtime" {
+	if f.downtime() {
 		nv = 3 + r.Intn(4)
 	}
 	perm := r.Perm(NKeys)
@@ -84,12 +84,12 @@ func (f *Fam) genInit(r *rand.Rand) string {
 		}
 	}
 	f.gen = genState{phase: 1, reliab: map[string]float64{}, maxBlocks: 8 + r.Intn(40)}
-	if f.Profile == "downtime" {
+	if f.downtime() {
 		f.gen.maxBlocks = int(window) + 20 + r.Intn(2*int(window))
 	}
 	for i := 0; i < NKeys; i++ {
 		f.gen.reliab[hx(Keys[i].Addr)] = []float64{1, 1, 0.9, 0.5, 0.1, 0}[r.Intn(6)]
-		if f.Profile == "downtime" {
+		if f.downtime() {
 			f.gen.reliab[hx(Keys[i].Addr)] = []float64{1, 0.97, 0.9, 0.5, 0, 0}[i%6]
 		}
 	}
@@ -146,7 +146,7 @@ func (f *Fam) genBegin(r *rand.Rand, s *Snapshot) string {
 	}
 	e := "-"
 	evRate := 12
-	if f.Profile == "downtime" {
+	if f.downtime() {
 		evRate = 150 // convictions would empty the validator set long before the windows fill
 	}
 	if r.Intn(evRate) == 0 && len(s.Vals) > 0 {
@@ -382,7 +382,7 @@ func (f *Fam) Gen(r *rand.Rand, i int) string {
 	case 1:
 		f.gen.phase = 2
 		f.gen.txsLeft = int(pick(r, 0, 1, 2, 3, 5, 8))
-		if f.Profile == "downtime" {
+		if f.downtime() {
 			f.gen.txsLeft = int(pick(r, 0, 0, 0, 0, 0, 1, 1, 2))
 		}
 		return f.genBegin(r, s)
